@@ -40,7 +40,8 @@ MANIFEST = {
              "points (what it waits for and which quit channels that wait selects on: peerHandler, blockHandler, "
              "cfHandler with its cond-var waits and retry timers, workDispatcher, worker, utxo batchManager, broadcast "
              "handler + rebroadcast, subscription handler + forwarders, batch writer, and the callers blocked in "
-             "GetBlock, GetCFilter, GetUtxo, SendTransaction, a rescan, a block subscription) and ChainService.Stop as "
+             "GetBlock, GetCFilter, GetUtxo, SendTransaction, a rescan, a block subscription, a Rescan.Update call "
+             "waiting for its busy rescan goroutine) and ChainService.Stop as "
              "the code's exact sequence of steps. TLC (a) checks StopCalled ~> StopReturned and every caller returned "
              "under fairness of every select arm (design level: wait-for cycles are counterexamples) and (b) exports "
              "the state graph; every model state in which Stop is called becomes a scenario (peer pool {empty, silent, "
@@ -81,6 +82,9 @@ ASSUMPTIONS = [
     "error classes: shutdown = text contains 'shutting down' / 'stopped'; cancelled = 'cancel' / 'rescan exited' / a "
     "closed subscription channel; any other error or a value is the operation's own result; nil value with nil error "
     "from GetBlock / GetCFilter or a panic is 'bad'",
+    "Rescan.Update: nil = the rescan goroutine took the update (the operation's own result); 'Rescan is already "
+    "done and cannot be updated' (r.running closed) = cancelled, whatever rescan error text it quotes; the caller's "
+    "own QuitChan stays open, so only the client can release the call",
     "reopen: database and both header stores open, tips readable, filter tip <= block tip, the last 50 block "
     "headers link, NewChainService succeeds on the directory",
     "model fairness: every select arm / timer that stays enabled is eventually taken (strong fairness for the "
@@ -132,10 +136,13 @@ def config(tier, seed):
                     live=dict(Pools="{0,1,2}", MaxAct=1, LateBegin=True, pairs=ap),
                     moments=[0, 1], per_key=2, bound=BOUND)
     # (of the pairs with the update activity only those in which the partner meets the rescan at the
-    # cfilter mutex / the work manager / MarkAsConfirmed: state space)
-    nosync = [p for p in ap if 7 not in p and (8 not in p or p in ((2, 8), (3, 8), (5, 8)))]
+    # cfilter mutex / the work manager / MarkAsConfirmed, in a TLC run of their own: state space and heap
+    # of the 15-pair export)
+    nosync = [p for p in ap if 7 not in p and 8 not in p]
     return dict(runs=[dict(Pools="{0,1,2}", MaxAct=1, LateBegin=True, pairs=[], Dialing=True),
                       dict(Pools="{0,1,2}", MaxAct=2, LateBegin=False, pairs=nosync),
+                      dict(Pools="{0,1,2}", Kinds="{2,3,5,8}", MaxAct=2, LateBegin=False,
+                           pairs=[(2, 8), (3, 8), (5, 8)]),
                       dict(Pools="{2}", MaxAct=2, LateBegin=False, pairs=[(1, 7), (2, 7), (5, 7), (6, 7)]),
                       dict(Pools="{1,2}", MaxAct=2, LateBegin=False, pairs=[(3, 7)]),
                       dict(Pools="{2}", MaxAct=2, LateBegin=False, pairs=[(4, 7)])],
